@@ -286,9 +286,51 @@ def run(ctx):
     ctx.count("functions_scanned", sum(1 for _ in repo.all_functions()))
 
     own_rule(ctx)
+    pool_rule(ctx)
     from . import cachecoh
     cachecoh.rule(ctx, "C10.stale", ("aspire.flows", "aspire.samples", "aspire.transforms", "aspire.samplers"),
                   "densities computed through it (the log_q handed back with fresh draws, a cached Jacobian) no longer belong to the coordinates they are stored with")
+
+
+ORDERED_MAPS = {"map", "imap", "starmap", "map_async", "starmap_async"}  # results come back in input order
+UNORDERED = {"imap_unordered", "as_completed"}
+
+
+def pool_rule(ctx):
+    """C10.pool: the map function handed to the user's likelihood / prior when a pool is enabled returns results in input order
+    (row i of the returned values belongs to row i of the coordinates)."""
+    from ..evalr import Evaluator
+    repo = ctx.repo
+    PH = repo.cls("aspire.utils:PoolHandler")
+    en = PH.methods.get("__enter__")
+    if en is None:
+        raise AnalysisError("PoolHandler.__enter__ not found")
+    ev = Evaluator(repo, max_depth=0)
+    ev.run(en, PH)
+    parts = [e for e in ev.events if e.func is en and e.callee.endswith("partial") and "map_fn" in dict(e.kwargs)]
+    ctx.floor("partial(map_fn=...) bindings in PoolHandler.__enter__", len(parts), 2)
+    for i, e in enumerate(parts):
+        mf = dict(e.kwargs)["map_fn"]
+        ok = mf[0] == "attr" and mf[1] == self_attr("pool") and mf[2] in ORDERED_MAPS
+        if not ok and mf[0] == "attr" and mf[1] == SELF and PH.resolve(mf[2]) is not None:
+            # a helper method of the handler: decided by the pool primitive it uses
+            hm = PH.resolve(mf[2])
+            used = {n.attr for n in walk_no_nested(hm.node) if isinstance(n, ast.Attribute) and n.attr in ORDERED_MAPS | UNORDERED}
+            if used and not (used & UNORDERED):
+                ok = True
+            elif not used:
+                ctx.unknown("C10.pool", en.ident, loc_of(en, e.node), f"map_fn is the helper {mf[2]}(), which uses no recognised pool primitive", disc=f"map_fn|{i}")
+                continue
+        ctx.decide(ok, "C10.pool", en.ident, loc_of(en, e.node), f"map_fn = self.pool.{mf[2] if mf[0] == 'attr' else '?'}: an order-preserving pool map",
+                   f"the map function handed to the user's callable is {T.show(mf)[:80]}, not an order-preserving method of the pool: if results come back in completion order, "
+                   "value i no longer belongs to row i and the samplers store it next to the wrong coordinates", disc=f"map_fn|{i}")
+    bad = []
+    for f in repo.all_functions():
+        for n in walk_no_nested(f.node):
+            if isinstance(n, ast.Attribute) and n.attr in UNORDERED:
+                bad.append(f"{f.ident}:{n.lineno}")
+    ctx.decide(not bad, "C10.pool", "package", "src/aspire/utils.py", "no unordered pool primitive (imap_unordered / as_completed) is used in the package",
+               f"unordered pool primitive used at {bad[:2]}: results arrive in completion order", disc="unordered")
 
 
 def own_rule(ctx, only_module: str | None = None, rule: str = "C10.own"):
@@ -347,6 +389,7 @@ MUTANTS += [
 MUTANTS += [
     M("jax flow keeps a compiled log_prob of the flow it had before fitting", "src/aspire/flows/jax/flows.py", "log_prob = self._flow.log_prob(x_prime)\n        x, log_abs_det_jacobian = self.inverse_rescale(x_prime)",
       "if getattr(self, \"_lp\", None) is None:\n            self._lp = self._flow.log_prob\n        log_prob = self._lp(x_prime)\n        x, log_abs_det_jacobian = self.inverse_rescale(x_prime)", "C10.stale"),
+    M("pool map returns results in completion order", "src/aspire/utils.py", "self.original_log_likelihood, map_fn=self.pool.map", "self.original_log_likelihood, map_fn=lambda f, it: list(self.pool.imap_unordered(f, it))", "C10.pool"),
     M("forward transform writes into its argument", _T, "x = copy_array(x, xp=self.xp)\n        x = self.xp.atleast_2d(x)\n        log_abs_det_jacobian = self.xp.zeros(len(x), device=self.device)\n        if self.periodic_parameters:",
       "x = self.xp.atleast_2d(x)\n        log_abs_det_jacobian = self.xp.zeros(len(x), device=self.device)\n        if self.periodic_parameters:", "C10.own"),
     M("inverse transform writes into its argument", _T, "x = copy_array(x, xp=self.xp)\n        x = self.xp.atleast_2d(x)\n        log_abs_det_jacobian = self.xp.zeros(len(x), device=self.device)\n        if self.affine_transform:",
@@ -356,6 +399,8 @@ MUTANTS += [
     M("nan patch written into the cached likelihood", "src/aspire/samplers/smc/base.py", "log_prob = update_at_indices(\n            log_prob, self.xp.isnan(log_prob), -self.xp.inf\n        )", "update_at_indices(samples.log_likelihood, self.xp.isnan(log_prob), -self.xp.inf)", "C10.own"),
 ]
 NEUTRALS = [
+    M("pool map through an order-preserving helper", "src/aspire/utils.py", "self.original_log_likelihood, map_fn=self.pool.map", "self.original_log_likelihood, map_fn=self._ordered_map",
+      more=[("def __enter__(self):\n        self.original_log_likelihood", "def _ordered_map(self, fn, iterable):\n        return list(self.pool.imap(fn, iterable))\n\n    def __enter__(self):\n        self.original_log_likelihood")]),
     M("checkpoint dataset through a local", "src/aspire/utils.py", "target[dsetname][:] = bdata", "dset = target[dsetname]\n    dset[:] = bdata"),
     M("enlargement whenever a final size is requested", "src/aspire/samplers/smc/base.py", "if n_final_samples is not None and len(samples.x) != n_final_samples:", "if n_final_samples is not None:"),
     M("forward copies through a temporary", _T, "x = copy_array(x, xp=self.xp)\n        x = self.xp.atleast_2d(x)\n        log_abs_det_jacobian = self.xp.zeros(len(x), device=self.device)\n        if self.periodic_parameters:",
